@@ -17,7 +17,11 @@ gvars == <<vars, phase, sc>>
 Ids == DOMAIN E
 Ext(f, d) == [i \in Ids |-> IF i \in DOMAIN f THEN f[i] ELSE d]
 
-PairKinds == {"badsig", "disallowed", "missing", "wrongroom", "malformed"}
+PairKinds == {"badsig", "disallowed", "missing", "wrongroom", "malformed"} \cup CreateFaults
+
+\* the create-rule faults applicable to event x
+CreateApp(x) == IF E[x].type # "create" THEN {}
+                ELSE {"create_prevs"} \cup (IF DomainlessRoomIDs(Ver) THEN {} ELSE {"create_domain"})
 
 \* two deviations: both of the kinds that interact through auth relations, or a whole-response fault next to a
 \* bad signature (the failure must win over the filtering)
@@ -60,6 +64,7 @@ StateApp(e, SL, cited, dis) ==
       \cup (IF e \in cited THEN {"missing"} ELSE {})
       \cup (IF DomainlessRoomIDs(Ver) /\ E[e].type = "create" THEN {} ELSE {"wrongroom"})
       \cup (IF e \in SL THEN {"dup"} ELSE {})
+      \cup CreateApp(e)
 
 PickState ==
     \E SL \in {after[N]} : \E AL \in {ChainOf(E, SL)} :
@@ -106,13 +111,15 @@ ChainApp(x, e, dis) ==
     (IF x \in dis THEN {"disallowed"} ELSE {})
       \cup (IF DomainlessRoomIDs(Ver) /\ E[x].type = "create" THEN {} ELSE {"wrongroom"})
       \cup (IF x # e THEN {"nothing", "errors"} ELSE {})
+      \cup CreateApp(x)
 
 \* a deviation function d over events: fault kinds go to F, provider kinds to P
 FOf(d) == Ext([x \in {y \in DOMAIN d : d[y] \in FaultKinds} |-> d[x]], NoFault)
 POf(d) == Ext([x \in {y \in DOMAIN d : d[y] \in ProvKinds} |-> d[x]], "returns")
 
 PickChain ==
-    \E e \in {N} : \E R \in {ChainOf(E, {e}) \cup {e}} :
+    \* (the newest event; in the room without free events also the create event, verified directly)
+    \E e \in {N} \cup (IF N = Base THEN {1} ELSE {}) : \E R \in {ChainOf(E, {e}) \cup {e}} :
     \E dis \in {{x \in R : CanDisallow(x)}} :
     \E d \in FaultChoices(R, LAMBDA x : ChainApp(x, e, dis)) :
        \E F \in {FOf(d)} : \E P \in {POf(d)} : \E EM \in {Mutated(F)} :
@@ -159,6 +166,7 @@ LoadApp(x, dis) ==
     {"badsig", "malformed", "dup", "nothing", "errors"}
       \cup (IF x \in dis THEN {"disallowed"} ELSE {})
       \cup (IF DomainlessRoomIDs(Ver) /\ E[x].type = "create" THEN {} ELSE {"wrongroom"})
+      \cup CreateApp(x)
 
 PickLoad ==
     \E dis \in {{x \in Ids : CanDisallow(x)}} :
